@@ -13,6 +13,19 @@ C/A/E of (K, H, session id) with the sizes of the negotiated algorithms == serve
 server-out == D/B/F == client-in; the two directions' keys / IVs / MAC keys differ; and the
 first packets after each activation decode under vlib.refssh keyed from the RFC letters
 (both sending directions), which pins that the recorded material is what is really used.
+
+Part 3 (real key exchanges): parts 1 and 2 put K into the transport as an integer; here K comes out
+of a real exchange, for every kex method paramiko offers.  A paramiko client (its own kex engines)
+talks to a server transport on the in-memory network whose kex engine is either paramiko's own or an
+honest reference engine (vlib.refkex: cryptography + hashlib only) that keeps drawing its ephemeral
+key until the shared secret has a given SHAPE - "short": the raw DH / ECDH / X25519 result starts
+with zero bytes (and the first non-zero byte has its top bit clear), so the mpint hashed into the KDF
+is strictly shorter than the field; "signpad": the bit
+length is a multiple of 8, so the mpint carries a leading 00.  Generated cipher and MAC, optional
+re-exchange started by either side (session id != second H).  Oracle: every (key, IV, MAC key) both
+transports hand to the cipher factory / Packetizer equals the RFC 4253 7.2 derivation (vlib.refssh)
+from the K and H the SERVER side's engine computed and the first H; client and server agree on K / H;
+the session (authentication, re-exchange, round trip) works.
 """
 from hypothesis import strategies as st
 
@@ -28,9 +41,18 @@ RULE = (
     "digest size (extension loop) or K whose top bit falls on a byte boundary (mpint sign byte). part 2: every cipher x MAC "
     "pair x kex hash enumerated, K/H generated, two key exchanges per session, both roles at once, the enumerated pair keying one "
     "direction and an independently generated suite the other (direction alternating: class asymmetric-suites); non-trivial = some "
-    "derived length exceeds the digest size or K has its top bit on a byte boundary; distinct by SHA-1 of the case"
+    "derived length exceeds the digest size or K has its top bit on a byte boundary. part 3 (class live): real key exchanges on the "
+    "in-memory network, EVERY kex method x server side {reference engine steering K to shape short (raw secret with leading zero "
+    "bytes: mpint shorter than the field), reference engine steering K to shape signpad (bit length multiple of 8: mpint with a "
+    "leading 00), paramiko's own engine}, generated cipher / MAC (short K: non-GCM cipher with a 64-byte MAC key, so that the extension "
+    "blocks are derived from the short secret too; class live-kdf-extension), optional re-exchange started by client or server; the key, IV and "
+    "MAC key both transports install at every key switch are compared with the reference KDF of the server engine's K, H and the "
+    "first H (classes live-kex:<name>, live-server:<ref|paramiko>, live-K-shape:<short|signpad|plain>[:<family>], "
+    "live-session-id-differs-from-H); non-trivial = shaped K, a re-exchange, or a derived length above the digest size; "
+    "distinct by SHA-1 of the case"
 )
 
+SHORT = "short-without-sign-byte-00"  # vlib.refkex shape: leading zero bytes dropped, no 00 put in front
 DIGEST = {"sha1": 20, "sha256": 32, "sha384": 48, "sha512": 64}
 
 _TRANSPORT = []
@@ -66,6 +88,48 @@ def kdf_case(ctx, case):
         else:
             what = "extension"
         ctx.violation("kdf-differs", what, case, "letter %s n=%d %s: paramiko %s.. reference %s.." % (letter, n, hashname, got[:24].hex(), want[:24].hex()))
+
+
+_LIVE = {}
+
+
+def _live_classes():
+    """Recording client / server transports for real handshakes on the in-memory network (E3 peers):
+    peers.VTransport / lying.EditingServer plus the same recording of (key, IV) handed to the cipher
+    factory and of the set_*_cipher arguments as in part 2."""
+    if not _LIVE:
+        import paramiko
+        from paramiko.packet import Packetizer
+        from vlib import lying, peers
+
+        class RecPacketizer(Packetizer):
+            def __init__(self, sock):
+                Packetizer.__init__(self, sock)
+                self.rec = []
+
+            def set_outbound_cipher(self, *a, **kw):
+                self.rec.append(("out", a, dict(kw)))
+                return Packetizer.set_outbound_cipher(self, *a, **kw)
+
+            def set_inbound_cipher(self, *a, **kw):
+                self.rec.append(("in", a, dict(kw)))
+                return Packetizer.set_inbound_cipher(self, *a, **kw)
+
+        class _Rec:
+            def _get_engine(self, name, key, iv=None, operation=None, aead=False):
+                if not hasattr(self, "engines"):
+                    self.engines = []
+                self.engines.append({"name": name, "key": bytes(key), "iv": None if iv is None else bytes(iv), "enc": operation is self._ENCRYPT})
+                return paramiko.Transport._get_engine(self, name, key, iv=iv, operation=operation, aead=aead)
+
+        class LiveClient(_Rec, peers.VTransport):
+            pass
+
+        class LiveServer(_Rec, lying.EditingServer):
+            pass
+
+        _LIVE.update(client=LiveClient, server=LiveServer, packetizer=RecPacketizer)
+    return _LIVE
 
 
 def _recording_classes():
@@ -220,9 +284,117 @@ def installed_case(ctx, case):
         return
 
 
+def live_case(ctx, case):
+    """case = {"part": "live", "kex": name, "server": "ref"|"paramiko", "shape": "any"|"short"|"short-without-sign-byte-00"|"signpad",
+    "cipher": name, "mac": name, "rekey": None|"c"|"s"}.  A REAL key exchange between a paramiko client
+    and a server on the in-memory network: the server side runs either paramiko's own engine or an
+    honest reference engine (vlib.refkex: cryptography + hashlib only) that draws its ephemeral key until
+    the shared secret K has the wanted shape ("short...": the raw result has leading zero bytes and the
+    first non-zero byte has its top bit clear, the mpint fed to the KDF is strictly shorter than the field;
+    "signpad": bit length a multiple of 8, the mpint carries a leading 00).  What both transports hand to the cipher factory / Packetizer at every key switch must be
+    the RFC 4253 7.2 derivation from the K and H of the SERVER side's engine and the first H."""
+    from vlib import mitm, peers, refkex
+
+    L = _live_classes()
+    kex, server, shape, cipher, mac, rekey = case["kex"], case["server"], case["shape"], case["cipher"], case["mac"], case.get("rekey")
+    fam = mitm.kex_family(kex)
+    hashname = mitm.KEX_HASH[kex]
+    kw = {"packetizer_class": L["packetizer"]}
+    ckw = dict(kw, disabled_algorithms={"kex": mitm.only(list(mitm.ALL_KEX), kex)})
+    pack = mitm.modulus_pack([(2, mitm.group_prime(1024))]) if fam == "gex" else mitm.modulus_pack([])
+    results = []
+    with pack:
+        link, tc, ts = peers.make_pair(client_cls=L["client"], server_cls=L["server"], client_kw=ckw, server_kw=kw)
+        so = tc.get_security_options()
+        so.ciphers = (cipher,)
+        so.digests = (mac,)
+        if server == "ref":
+            ts.v_install_engines({kex: refkex.ref_server(kex, shape)})
+        fail = None
+        try:
+            ce, se = peers.start_both(tc, ts)
+            if ce or se:
+                fail = "initial exchange: client=%r server=%r" % (ce, se)
+            elif rekey:
+                try:
+                    tc.auth_password("u", "pw")
+                    from vlib import lying
+
+                    lying.rekey_prefix(tc, ts, [rekey])
+                except Exception as e:
+                    fail = "after the initial exchange (authentication, re-exchange started by %s, round trip): %r" % (rekey, e)
+            ckh, skh = list(tc.v_kh), list(ts.v_kh)
+            for t, role in ((tc, "client"), (ts, "server")):
+                eng = list(getattr(t, "engines", []))
+                rec = list(getattr(t.packetizer, "rec", []))
+                results.append((role, eng, rec, list(t.v_out), list(t.v_in)))
+        finally:
+            peers.shutdown(tc, ts)
+            mitm.cancel_timers(tc, ts)
+    gex_p = mitm.group_prime(1024) if fam == "gex" else None
+    shapes = sorted(set(s for K, _ in skh for s in (refkex.k_shapes(kex, K, gex_p) or ["plain"])))
+    maxlen = max(R.CIPHERS[cipher][1], R.CIPHERS[cipher][3], 0 if R.CIPHERS[cipher][0] == "gcm" else R.MACS[mac][1])
+    nontrivial = bool(skh) and (shapes != ["plain"] or maxlen > DIGEST[hashname] or len(skh) > 1)
+    classes = ["live", "live-kex:" + kex, "live-server:" + server, "live-exchanges:%d" % len(skh), "cipher:" + cipher, "mac:" + mac, "hash:" + hashname]
+    classes += ["live-K-shape:%s" % s for s in shapes] + ["live-K-shape:%s:%s" % (s, fam) for s in shapes]
+    if len(skh) > 1:
+        classes.append("live-session-id-differs-from-H")
+    if maxlen > DIGEST[hashname]:
+        classes.append("live-kdf-extension")
+        classes += ["live-kdf-extension+K-%s" % s for s in shapes]
+    ctx.case(case, nontrivial, classes)
+    kshape = "+".join(shapes) if shapes else "none"
+    if not skh:
+        ctx.violation("live-exchange-fails", "%s:no-exchange-completed" % fam, case, fail or "")
+        return
+    sid = skh[0][1]
+    # (1) the recorded key material against the RFC letters, K and H as the server side's engine computed them
+    for role, eng, rec, v_out, v_in in results:
+        for way in ("out", "in"):
+            es = [e for e in eng if e["enc"] == (way == "out")]
+            rs = [r for r in rec if r[0] == way]
+            suites = v_out if way == "out" else v_in
+            for i in range(min(len(es), len(rs), len(suites), len(skh))):
+                c2s = (role == "client") == (way == "out")
+                su = [suites[i]["cipher"], suites[i]["mac"], "none"]
+                keys = {"K": skh[i][0], "H": skh[i][1], "hash": hashname, "c2s": su, "s2c": su}
+                exp = _expected(keys, sid, c2s)
+                gcm = R.CIPHERS[su[0]][0] == "gcm"
+                e, r = es[i], rs[i]
+                got_iv = _arg(r, "iv_out" if way == "out" else "iv_in", 8 if way == "out" else 7) if gcm else e["iv"]
+                checks = [("key", e["key"], exp["key"]), ("iv", got_iv, exp["iv"])]
+                if not gcm:
+                    checks.append(("mac-key", _arg(r, "mac_key", 4), exp["mac"]))
+                for what, got, want in checks:
+                    if got is None or bytes(got) != want:
+                        kind = "size" if got is not None and len(got) != len(want) else "value"
+                        ctx.violation(
+                            "live-installed-%s-differs" % what,
+                            "%s-%s:%s:%s:K-%s" % (role, way, kind, fam, kshape),
+                            case,
+                            "exchange %d %s-%s %s (%s, %s, K of %d bits): paramiko %s reference %s" % (i, role, way, what, su[0], kex, skh[i][0].bit_length(), None if got is None else bytes(got).hex(), want.hex()),
+                        )
+                        return
+    # (2) both sides computed the same K / H (C06's subject; here it only says which K the keys were compared with)
+    for i in range(min(len(ckh), len(skh))):
+        if ckh[i] != skh[i]:
+            ctx.violation("live-K-H-differ", "%s:exchange-%d" % (fam, min(i, 1)), case, "client and server side disagree on K or H of exchange %d" % i)
+            return
+    # (3) keys that follow the RFC on both sides interoperate: the session must have worked
+    if fail:
+        ctx.violation("live-exchange-fails", "%s:K-%s" % (fam, kshape), case, fail)
+        return
+    want_n = 2 if rekey else 1
+    for role, eng, rec, v_out, v_in in results:
+        if len(eng) != 2 * want_n or len(rec) != 2 * want_n or len(skh) != want_n:
+            raise pkt.HarnessBug("%s: %d exchanges expected, %d engines / %d cipher switches / %d exchanges recorded" % (role, want_n, len(eng), len(rec), len(skh)))
+
+
 def execute(ctx, case):
     if case["part"] == "kdf":
         kdf_case(ctx, case)
+    elif case["part"] == "live":
+        live_case(ctx, case)
     else:
         installed_case(ctx, case)
 
@@ -275,6 +447,39 @@ def run(ctx):
         ctx.explore(inst.map(pkt.norm_case), lambda cs: execute(ctx, cs), per, seed_offset=100 + idx)
         if ctx._last_fail is not before and ctx.unknown:
             break  # an unlisted violation was found and shrunk; do not shrink it again for every further pair
+    # -- part 3: real key exchanges (every kex method), the server side steering the SHAPE of the shared secret
+    from vlib import mitm
+
+    lwork = [(kex, "ref", shape) for kex in mitm.ALL_KEX for shape in (SHORT, "signpad")] + [(kex, "paramiko", "any") for kex in mitm.ALL_KEX]
+    for idx, (kex, server, shape) in enumerate(lwork):
+        if idx % ctx.nworkers != ctx.worker or ctx.unknown:
+            continue
+        if ctx.out_of_time():
+            break
+        state = {"n": 0}
+
+        def lbody(cs, state=state):
+            state["n"] += 1
+            if state["n"] == 1 or ctx.unknown:
+                return  # hypothesis' first example is the all-minimal one (first cipher, first MAC, no re-exchange)
+            execute(ctx, cs)
+
+        live = st.fixed_dictionaries(
+            {
+                "part": st.just("live"),
+                "kex": st.just(kex),
+                "server": st.just(server),
+                "shape": st.just(shape),
+                # short K x extension loop: the cases with a short secret negotiate a 64-byte MAC key (longer than the
+                # digest of every kex hash but sha512, so HASH(K || H || K1 ...) blocks are needed) on a cipher that uses it
+                "cipher": st.sampled_from([c for c in pkt.CIPHERS if R.CIPHERS[c][0] != "gcm"]) if shape == SHORT else S.cipher,
+                "mac": st.sampled_from([m for m in pkt.MACS if R.MACS[m][1] == 64]) if shape == SHORT else S.mac,
+                "rekey": st.sampled_from([None, "c", "s"]),
+            }
+        )
+        # real threads and fresh ephemeral keys in every run: collect-then-continue, no shrinking
+        ctx.explore(live.map(pkt.norm_case), lbody, 1 + ctx.scale(1, 12), shrink=False, seed_offset=600 + idx)
+    ctx.assume("part 3: an honest server may pick any ephemeral key; one that keeps drawing until K has a given shape is still honest (vlib.refkex). Only the server side can steer K (the client commits to its public value first), so a paramiko SERVER engine meets shaped secrets only by chance (1 exchange in 256)")
     ctx.assume("the reference KDF is validated by agreement with paramiko on the unchanged tree and by decoding paramiko's traffic; no external KDF vectors are available offline")
 
 
